@@ -92,6 +92,19 @@ def handle (st : St) (l : Line) : Option (St × List String × Option String) :=
   let v1 ← l.verbs[1]?
   if v1 == "cfg" then
     pure ({ kind := (← l.get "store"), m := [], fs := some .nil, specOn := l.get "spec" != some "0" }, ["ok"], none)
+  else if l.verbs[2]? == some "getpm" then
+    -- the multi-key ranged get: one answer per request, each the single-key ranged get of the specification
+    let reqs ← ((← l.get "kr").splitOn ";").mapM (fun t => match t.splitOn "@" with
+      | [k, r] => (parseRange r).map (fun r => (k.toList, r))
+      | _ => none)
+    let answers := reqs.map (fun (k, r) => (Spec.step st.m (.getPartial k [r])).2)
+    let shown := answers.map (fun a => match a with
+      | .parts (some [b]) => "some:" ++ showHex b
+      | .parts none => "none"
+      | _ => "err")
+    let out := if shown.contains "err" then "err" else "multi " ++ ";".intercalate shown
+    -- (`spec=0`: the key universe is not prefix-free, the ordered-map specification does not apply)
+    pure (st, if st.specOn then [out] else ["any"], none)
   else
     let op ← parseOp l
     let (m', r) := Spec.step st.m op
